@@ -390,7 +390,7 @@ func runC18(c *Ctx, r *Report) {
 	_ = entryParam
 
 	// ---- R-C18.6 / R-C18.7
-	r.Doc("R-C18.6", "the decode path keeps no state between blocks (pooled or memoised scratch objects would hand one entry's decrypted links to the next)")
+	r.Doc("R-C18.6", "neither the decode path nor the sealing path keeps state between entries (pooled or memoised scratch objects would hand one entry's links, decrypted or sealed, to the next)")
 	r.Doc("R-C18.7", "the codec objects shared by concurrent PreSign/DecryptLinks calls are of concurrency-safe (pooled/stateless) types")
 	r.Doc("R-C18.8", "the link-key codec configured for a log is the one its loaders read with and the one a reopened log writes with")
 	optionForwarding(c, r, "R-C18.8", append(append(loaderFetchSpecs(), constructorLoaderSpecs()...), constructorLogSpecs()...), "IO")
@@ -434,6 +434,14 @@ func runC18(c *Ctx, r *Report) {
 	for fn := range decodeScope(c) {
 		nd++
 		detScan(c, r, "R-C18.6", fn)
+	}
+	// the sealing path likewise: a memo of sealed links (keyed by the nonce, which does not cover the references)
+	// hands one entry's sealed lists to another
+	for fn := range c.CG.Reach([]*Fn{p.Func("io/cbor", "IOCbor", "PreSign")}, false) {
+		if inPkgs(p, fn, "io/cbor", "enc", "io/jsonable") {
+			nd++
+			detScan(c, r, "R-C18.6", fn)
+		}
 	}
 	r.Floor("R-C18.6", "functions in the decode closure", nd, 8)
 	if !hasRule(r, "R-C18.6") {
